@@ -73,7 +73,25 @@ let with_budget (check : sexp list -> verdict * string option) (fields : sexp li
        | _ -> (v, cross))
 let check_C05 = check_with true oracle_C05
 let check_C06 = with_budget (check_with true oracle_turns)
-let check_C01 = check_with false oracle_C01
+let check_C01 (fields : sexp list) : verdict * string option =
+  if field_opt "serverclosed" fields = None then check_with false oracle_C01 fields
+  else
+    (* the server had been closed before this connection was served: the authentication oracle alone (the model
+       knows no shutdown; what a closing server does with an authenticated connection belongs to C16) *)
+    let r = run_sess fields in
+    match r.impl with
+    | None -> (OracleFail "implementation output is not a well-formed backend message stream", None)
+    | Some il ->
+        if r.obs_.sslreq then
+          (* behind an SSLRequest the oracle's view of the startup packet does not apply: no session events at all
+             unless a validation accepted *)
+          let accepted = List.exists (function CbValidate _ -> true | _ -> false) il in
+          let session = List.exists (function Out (BParamStatus _) | Out (BReady _) | CbMw _ | CbParse _ | CbExec _ -> true | _ -> false) il in
+          if session && not accepted then (OracleFail "a closing server gave a session to a connection whose credentials no validator was asked about", None)
+          else (Ok_, None)
+        else if not (oracle_C01 r.case_ il) then
+          (OracleFail (Printf.sprintf "a closing server: the authentication oracle rejects the observed log\n    impl:  %s" (show_log il)), None)
+        else (Ok_, None)
 let check_C12 = check_with false oracle_C12
 let check_C07 = check_with true oracle_names
 let check_C08 = check_with true oracle_names
